@@ -692,15 +692,16 @@ def rule_R27_map_collect(text, log):
 
 
 def rule_R28_bitflags_or_assign(text, log):
-    """`X |= Flags::E;` -> `X.insert(Flags::E);` for the bitflags types of the repository (bitflags 2.x: BitOrAssign is insert)"""
+    """`X |= Flags::E;` -> `X.insert(Flags::E);`, `X -= Flags::E;` -> `X.remove(Flags::E);` for the bitflags types of the repository (bitflags 2.x: BitOrAssign is insert, SubAssign is remove)"""
     out = text
-    rx = re.compile(r'(?<![\w.])([A-Za-z_]\w*)\s*\|=\s*((?:[A-Za-z_]\w*Flags)::[^;]+);')
+    rx = re.compile(r'(?<![\w.])([A-Za-z_]\w*)\s*(\||-)=\s*((?:[A-Za-z_]\w*Flags)::[^;]+);')
     while True:
         mask = code_mask(out)
         mm = next((m for m in rx.finditer(out) if mask[m.start()]), None)
         if not mm:
             return out
-        new = '%s.insert(%s);' % (mm.group(1), mm.group(2).strip())
+        # bitflags 2.x: `|=` is insert (union), `-=` is remove (difference, self & !other)
+        new = '%s.%s(%s);' % (mm.group(1), 'insert' if mm.group(2) == '|' else 'remove', mm.group(3).strip())
         log.append(('R28', norm_ws(mm.group(0)), new))
         out = out[:mm.start()] + new + out[mm.end():]
 
